@@ -778,3 +778,379 @@ def fingerprint_has_bytes(h):
     if isinstance(h.system_identifier, bytes) or isinstance(h.generating_software, bytes):
         return True
     return any(isinstance(getattr(v, "description", ""), bytes) for v in h.vlrs)
+
+
+# =================================================================================
+# Round-5 additions (C03 / C06 / C19 group). Everything below is NEW; LogStream2 above only gained attributes with defaults
+# (the exception a fault raises, a log of truncations).
+# =================================================================================
+import contextlib as _contextlib
+import errno as _errno
+import os as _os
+
+# what a failing low-level write raises: every errno class an OSError can carry (Python maps EAGAIN / EWOULDBLOCK to BlockingIOError,
+# EINTR to InterruptedError, ETIMEDOUT to TimeoutError), a BlockingIOError that says how many characters it wrote, and exceptions that
+# are not OSErrors at all (a closed file raises ValueError; an allocation failing inside the destination raises MemoryError)
+FAULT_EXCS = {
+    "ENOSPC": lambda j: OSError(_errno.ENOSPC, "No space left on device (harness: one-off torn write)"),
+    "EIO": lambda j: OSError(_errno.EIO, "Input/output error (harness: one-off torn write)"),
+    "EAGAIN": lambda j: OSError(_errno.EAGAIN, "Resource temporarily unavailable (harness: one-off torn write)"),
+    "EWOULDBLOCK": lambda j: OSError(_errno.EWOULDBLOCK, "Operation would block (harness: one-off torn write)"),
+    "EINTR": lambda j: OSError(_errno.EINTR, "Interrupted system call (harness: one-off torn write)"),
+    "ETIMEDOUT": lambda j: OSError(_errno.ETIMEDOUT, "Connection timed out (harness: one-off torn write)"),
+    "BlockingIOError": lambda j: BlockingIOError(_errno.EAGAIN, "write could not complete without blocking (harness)", j),
+    "EPIPE": lambda j: OSError(_errno.EPIPE, "Broken pipe (harness: one-off torn write)"),
+    "ValueError": lambda j: ValueError("I/O operation on closed file (harness: one-off torn write)"),
+    "MemoryError": lambda j: MemoryError("harness: one-off torn write"),
+}
+FAULT_EXC_NAMES = list(FAULT_EXCS)
+
+
+def make_fault_exc(name, stored):
+    return FAULT_EXCS[name or "ENOSPC"](stored)
+
+
+class LogStream3(LogStream2):
+    """LogStream2 that (a) raises the exception class asked for (`exc`: a key of FAULT_EXCS) when its one-off fault fires, (b) also records
+    truncations: `ops` is the whole history [('W', position, bytes) | ('T', size)], `trace` stays the list of writes"""
+
+    def __init__(self, initial=b""):
+        super().__init__(initial)
+        self.ops = []
+        self.exc = None
+        self.raised = None         # the exception object the fault raised
+
+    def arm(self, fail_at, keep, min_len=0, exc=None):
+        super().arm(fail_at, keep, min_len)
+        self.exc = exc
+
+    def write(self, b):
+        b = bytes(b)
+        pos = self.tell()
+        try:
+            n = super().write(b)
+        except OSError:
+            # the one-off fault of LogStream2 (always an OSError(ENOSPC) there): re-raised as the class asked for
+            if self.fault is not None and self.raised is None and self.fault[1] == pos:
+                self.ops.append(("W", pos, b[:self.fault[3]]))
+                self.raised = make_fault_exc(self.exc, self.fault[3])
+                raise self.raised from None
+            raise
+        self.ops.append(("W", pos, b))
+        return n
+
+    def truncate(self, size=None):
+        size = self.tell() if size is None else size
+        self.ops.append(("T", size))
+        return super().truncate(size)
+
+
+def apply_ops(base, ops, k, j=0):
+    """the destination after the first k operations of `ops` (('W', pos, bytes) | ('T', size)) applied to `base`, and the first j bytes of
+    operation k when that is a write (a torn write / a crash inside it)"""
+    buf = bytearray(base)
+
+    def wr(pos, bs):
+        if pos > len(buf):
+            buf.extend(b"\0" * (pos - len(buf)))
+        buf[pos:pos + len(bs)] = bs
+    for op in ops[:k]:
+        if op[0] == "W":
+            wr(op[1], op[2])
+        elif op[1] <= len(buf):
+            del buf[op[1]:]
+        else:
+            buf.extend(b"\0" * (op[1] - len(buf)))
+    if k < len(ops) and j and ops[k][0] == "W":
+        wr(ops[k][1], ops[k][2][:j])
+    return bytes(buf)
+
+
+class LogFile:
+    """stands between laspy and the file object the builtin open() returned for a PATH laspy was asked to write to (LasData.write(path),
+    laspy.open(path, mode='w' / 'a')): records the mode the path was opened with, what the path held right after that open (`initial`:
+    empty when the mode truncates), and every write / truncate issued; can make one write fail like LogStream3"""
+
+    def __init__(self, real, path, mode, initial):
+        self._f, self.path, self.mode, self.initial = real, path, mode, initial
+        self.ops = []
+        self.fail_at, self.keep, self.seen, self.min_len, self.exc = None, 0, 0, 0, None
+        self.fault = None
+        self.raised = None
+
+    def arm(self, fail_at, keep, min_len=0, exc=None):
+        self.fail_at, self.keep, self.seen, self.min_len, self.exc = fail_at, keep, 0, min_len, exc
+
+    def write(self, b):
+        b = bytes(b)
+        pos = self._f.tell()
+        if self.fail_at is not None and self.fault is None and len(b) >= self.min_len:
+            i = self.seen
+            self.seen += 1
+            if i == self.fail_at:
+                j = self.keep(len(b)) if callable(self.keep) else min(self.keep, len(b))
+                self.ops.append(("W", pos, b[:j]))
+                self._f.write(b[:j])
+                self.fault = (len(self.ops) - 1, pos, len(b), j)
+                self.raised = make_fault_exc(self.exc, j)
+                raise self.raised
+        self.ops.append(("W", pos, b))
+        return self._f.write(b)
+
+    def truncate(self, size=None):
+        self.ops.append(("T", self._f.tell() if size is None else size))
+        return self._f.truncate(size)
+
+    def __getattr__(self, name):
+        return getattr(self._f, name)
+
+    def __enter__(self):
+        return self
+
+    def __exit__(self, *a):
+        self._f.close()
+        return False
+
+
+@_contextlib.contextmanager
+def intercept_open(path, arm=None):
+    """while active, the builtin open() of `path` for writing returns a LogFile around the real file object (every other open is untouched);
+    yields the list of LogFiles made. This instruments the boundary between laspy and the operating system, not laspy."""
+    import builtins
+    real = builtins.open
+    target = _os.path.realpath(_os.fspath(path))
+    made = []
+
+    def fake(file, mode="r", *a, **k):
+        f = real(file, mode, *a, **k)
+        try:
+            same = isinstance(file, (str, bytes, _os.PathLike)) and _os.path.realpath(_os.fspath(file)) == target
+        except Exception:
+            same = False
+        if not same or not any(c in mode for c in "wa+x"):
+            return f
+        with real(target, "rb") as g:
+            initial = g.read()
+        lf = LogFile(f, target, mode, initial)
+        if arm:
+            lf.arm(*arm)
+        made.append(lf)
+        return lf
+    builtins.open = fake
+    try:
+        yield made
+    finally:
+        builtins.open = real
+
+
+class SparseFile:
+    """a seekable binary file object that stores only what was written: unwritten ranges read as zeros (like a sparse file on disk).
+    Lets a file of 2**32 - 1 twenty-byte records exist without its 80 GB. A single read of more than `max_read` bytes raises MemoryError
+    (nothing may try to load the point block)."""
+
+    def __init__(self, max_read=1 << 26):
+        self.ext = []            # sorted, disjoint, non-adjacent [start, bytearray]
+        self.size = 0
+        self.pos = 0
+        self.closed = False
+        self.max_read = max_read
+        self.nwrites = 0
+
+    def seekable(self):
+        return True
+
+    def readable(self):
+        return True
+
+    def writable(self):
+        return True
+
+    def _check(self):
+        if self.closed:
+            raise ValueError("I/O operation on closed file.")
+
+    def seek(self, off, whence=0):
+        self._check()
+        p = off if whence == 0 else (self.pos + off if whence == 1 else self.size + off)
+        if p < 0:
+            raise ValueError(f"negative seek value {p}")
+        self.pos = p
+        return p
+
+    def tell(self):
+        self._check()
+        return self.pos
+
+    def read_at(self, pos, n):
+        n = max(0, min(n, self.size - pos))
+        if n > self.max_read:
+            raise MemoryError(f"harness: a single read of {n} bytes of a sparse file")
+        out = bytearray(n)
+        for s, d in self.ext:
+            lo, hi = max(s, pos), min(s + len(d), pos + n)
+            if lo < hi:
+                out[lo - pos:hi - pos] = d[lo - s:hi - s]
+        return bytes(out)
+
+    def read(self, n=-1):
+        self._check()
+        if n is None or n < 0:
+            n = max(0, self.size - self.pos)
+        data = self.read_at(self.pos, n)
+        self.pos += len(data)
+        return data
+
+    def readinto(self, b):
+        data = self.read(len(b))
+        b[:len(data)] = data
+        return len(data)
+
+    def write(self, b):
+        self._check()
+        b = bytes(b)
+        if not b:
+            return 0
+        self.nwrites += 1
+        lo, hi = self.pos, self.pos + len(b)
+        keep, merged_lo, merged = [], lo, None
+        for s, d in self.ext:
+            if s + len(d) < lo or s > hi:
+                keep.append([s, d])
+            else:
+                nlo, nhi = min(s, merged_lo if merged is not None else lo), max(s + len(d), hi if merged is None else merged_lo + len(merged))
+                buf = bytearray(nhi - nlo)
+                if merged is not None:
+                    buf[merged_lo - nlo:merged_lo - nlo + len(merged)] = merged
+                buf[s - nlo:s - nlo + len(d)] = d
+                merged_lo, merged = nlo, buf
+        if merged is None:
+            merged_lo, merged = lo, bytearray(len(b))
+        elif merged_lo > lo or merged_lo + len(merged) < hi:
+            nlo, nhi = min(merged_lo, lo), max(merged_lo + len(merged), hi)
+            buf = bytearray(nhi - nlo)
+            buf[merged_lo - nlo:merged_lo - nlo + len(merged)] = merged
+            merged_lo, merged = nlo, buf
+        merged[lo - merged_lo:hi - merged_lo] = b
+        keep.append([merged_lo, merged])
+        keep.sort(key=lambda e: e[0])
+        self.ext = keep
+        self.pos = hi
+        self.size = max(self.size, hi)
+        return len(b)
+
+    def truncate(self, size=None):
+        self._check()
+        size = self.pos if size is None else size
+        ext = []
+        for s, d in self.ext:
+            if s < size:
+                ext.append([s, d[:size - s]])
+        self.ext = ext
+        self.size = size
+        return size
+
+    def flush(self):
+        pass
+
+    def close(self):
+        self.closed = True
+
+    def __enter__(self):
+        return self
+
+    def __exit__(self, *a):
+        self.close()
+
+    def snapshot(self):
+        return (self.size, tuple((s, bytes(d)) for s, d in self.ext))
+
+
+def legacy_count_field(minor, fmt, count):
+    """what the 4-byte legacy point count of a header must hold"""
+    if minor >= 4 and (fmt >= 6 or count > 2 ** 32 - 1):
+        return 0
+    return count
+
+
+def make_sparse_las(h, count, evl=None):
+    """(SparseFile, header bytes) - a LEGAL file of `count` records that are all zero bytes, without its point block: the header is the one
+    laspy writes for one zero record (extrema = the offsets, empty return histogram: exact for any number of zero records) with the point count
+    (and the EVLR pointer) set to `count`; the EVLRs sit at offset + count x record length"""
+    import laspy
+    one = laspy.PackedPointRecord.zeros(1, h.point_format)
+    raw = write_las(h, one, evl)
+    d = parse_raw(raw)
+    off, ps, minor = d["offset"], d["psize"], d["minor"]
+    head = bytearray(raw[:off])
+    head[107:111] = legacy_count_field(minor, d["fmt"], count).to_bytes(4, "little")
+    if minor >= 4:
+        head[247:255] = count.to_bytes(8, "little")
+    ev = raw[off + ps:]
+    if minor >= 4 and d["nevlrs"]:
+        head[235:243] = (off + count * ps).to_bytes(8, "little")
+    sp = SparseFile()
+    sp.write(bytes(head))
+    if ev:
+        sp.seek(off + count * ps)
+        sp.write(ev)
+    sp.size = max(sp.size, off + count * ps + len(ev))
+    sp.seek(0)
+    return sp, bytes(head), raw
+
+
+def bulk_points(rng, h, n, small_coords=False):
+    """n records, all distinct (a counter in X), random other bytes, cheap to build for large n"""
+    import laspy
+    rec = laspy.PackedPointRecord.zeros(n, h.point_format)
+    ps = rec.array.dtype.itemsize
+    raw = np.frombuffer(rng.randbytes(n * ps), dtype=np.uint8).copy()
+    rec.array = raw.view(rec.array.dtype).copy()
+    rec.array["X"] = (np.arange(n, dtype=np.int64) + rng.randrange(1 << 20)).astype(np.int32)
+    if small_coords:
+        rec.array["Y"] = rec.array["Y"] >> 12
+        rec.array["Z"] = rec.array["Z"] >> 12
+    return rec
+
+
+# lengths at which block-wise copies / chunked rewrites change behaviour: exact multiples of 2**16 and their neighbours, and one beyond 2**20
+BIG_LENGTHS = [1 << 16, (1 << 16) + 1, (1 << 17) - 1, 1 << 17, (1 << 17) + 1, 3 << 16, 1 << 18, (1 << 20) + 1]
+BIG_SHAPES = ["[::2]", "[::-1]", "[1::2]", "[::3]", "fancy", "mask", "whole", "[::-2]"]
+
+
+def big_selection(rng, h, length, shape):
+    """(base record, selection of exactly `length` records of it made the way `shape` says, bytes the selection must be stored as).
+    '[::2]' & co. are non-contiguous views of the base record; 'fancy' / 'mask' are numpy copies; 'whole' is the base itself."""
+    if shape in ("[::2]", "[1::2]", "[::-2]"):
+        base = bulk_points(rng, h, 2 * length + (1 if shape == "[1::2]" else 0))
+        sel = {"[::2]": base[::2], "[1::2]": base[1::2], "[::-2]": base[::-2]}[shape]
+    elif shape == "[::3]":
+        base = bulk_points(rng, h, 3 * length - 2)
+        sel = base[::3]
+    elif shape == "[::-1]":
+        base = bulk_points(rng, h, length)
+        sel = base[::-1]
+    elif shape == "fancy":
+        base = bulk_points(rng, h, length + 7)
+        ix = np.arange(length, dtype=np.int64)[::-1] + rng.randrange(8)
+        sel = base[ix]
+    elif shape == "mask":
+        base = bulk_points(rng, h, length + 5)
+        mk = np.ones(length + 5, dtype=bool)
+        mk[[rng.randrange(length + 5) for _ in range(40)]] = False
+        extra = (length + 5) - int(mk.sum()) - 5
+        # exactly `length` records selected: switch bits back on / off until the count is right
+        idx_off = np.flatnonzero(~mk)
+        mk[idx_off[:len(idx_off) - 5]] = True
+        sel = base[mk]
+    else:
+        base = bulk_points(rng, h, length)
+        sel = base
+    assert len(sel) == length, (shape, len(sel), length)
+    return base, sel, rec_bytes(sel)
+
+
+def small_header(rng, version=None, fmt=None):
+    """a header for sessions with very many points: a format with short records, few VLRs"""
+    version = version or rng.choice(VERSIONS)
+    fmt = rng.choice([f for f in COMPAT[version] if f in (0, 1, 2, 6)]) if fmt is None else fmt
+    return rand_header(rng, version=version, fmt=fmt, nvlrs=rng.choice([0, 1]))
